@@ -1,6 +1,6 @@
 (* Equality of the per-entry decision loop of VariantPeptidePool.filter, as GENERATED from /repo's source by
    harness/translate/py2coq.py (coq/Gen/Py_VariantPeptidePool.v), with Filter.keep_list.  docs/py2coq.md. *)
-From Coq Require Import ZArith List Bool Lia.
+From Coq Require Import ZArith List Bool Lia ZifyBool.
 From MoPep Require Import Model.Base Model.PyRt Model.Rule Model.Digest Model.Header Model.Filter Gen.Py_VariantPeptidePool.
 Import ListNotations.
 Open Scope Z_scope.
@@ -49,4 +49,57 @@ Proof.
       destruct b; rewrite <- ?app_assoc; reflexivity. }
   unfold py_keep_list. cbv zeta. rewrite L. unfold bind. cbn [app].
   destruct (keep_list o d es0); reflexivity.
+Qed.
+
+(* ------------------------------------------------------------------ the whole function *)
+Lemma code_filter_is_model_l : forall o peps,
+  py_filter o peps = bind (mapM (filter_pep o) peps) (fun rs => Ok (flat_map opt_list rs)).
+Proof.
+  intros o peps0.
+  (* inner loop, one entry *)
+  assert (STEP : forall d e (t : list entry) acc,
+    py_filter_loop1 o peps0 d (e :: t) acc
+    = match keep_entry o d e with
+      | Err x => Done (Err x)
+      | Ok b => py_filter_loop1 o peps0 d t (if b then acc ++ [e] else acc)
+      end).
+  { intros d e t acc. cbn [py_filter_loop1]. cbv zeta.
+    unfold keep_entry, is_canonical, all_noncoding, all_coding, bind. cbn [nth_error].
+    repeat pf_step; reflexivity. }
+  assert (INNER : forall d (l : list entry) acc,
+    py_filter_loop1 o peps0 d l acc
+    = match keep_list o d l with Err x => Done (Err x) | Ok r => Continue (acc ++ r) end).
+  { intros d. induction l as [|e t IH]; intro acc.
+    - cbn [py_filter_loop1 keep_list]. rewrite app_nil_r. reflexivity.
+    - rewrite STEP. cbn [keep_list]. unfold bind at 1. destruct (keep_entry o d e) as [b|x]; [|reflexivity].
+      rewrite IH. unfold bind. destruct (keep_list o d t); [|reflexivity].
+      destruct b; rewrite <- ?app_assoc; reflexivity. }
+  (* outer loop, one peptide: the miscleavage window, the denylist flag, the keep list, `if keep:` *)
+  assert (PEP : forall p (t : list pep) acc,
+    py_filter_loop2 o peps0 (p :: t) acc
+    = match filter_pep o p with
+      | Err x => Done (Err x)
+      | Ok None => py_filter_loop2 o peps0 t acc
+      | Ok (Some q) => py_filter_loop2 o peps0 t (acc ++ [q])
+      end).
+  { intros [sq es] t acc. cbn [py_filter_loop2]. cbv zeta. cbn [fst snd].
+    unfold filter_pep, misc_ok, misc_count, in_denylist, bind. cbn [fst snd]. cbv zeta.
+    set (n := Z.of_nat (length (sites (o_rule o) (o_exc o) sq))).
+    destruct (o_lo o) as [lo|]; destruct (o_hi o) as [hi|]; cbn [negb];
+      try (destruct (n <? lo) eqn:C1); try (destruct (n >? hi) eqn:C2);
+      try (replace (lo <=? n) with true by lia); try (replace (lo <=? n) with false by lia);
+      try (replace (n <=? hi) with true by lia); try (replace (n <=? hi) with false by lia);
+      cbn [negb andb]; try reflexivity;
+      destruct (o_deny o) as [dl|]; cbn [negb andb]; rewrite INNER; cbn [app];
+      (match goal with |- context [keep_list o ?d es] => destruct (keep_list o d es) as [k|x] end;
+       [destruct k; reflexivity | reflexivity]). }
+  assert (OUTER : forall (l : list pep) acc,
+    match py_filter_loop2 o peps0 l acc with Done r => r | Continue a => Ok a end
+    = bind (mapM (filter_pep o) l) (fun rs => Ok (acc ++ flat_map opt_list rs))).
+  { induction l as [|p t IH]; intro acc.
+    - cbn [py_filter_loop2 mapM bind flat_map]. rewrite app_nil_r. reflexivity.
+    - rewrite PEP. cbn [mapM]. unfold bind at 1. destruct (filter_pep o p) as [[q|]|x]; [| |reflexivity];
+        rewrite IH; unfold bind; destruct (mapM (filter_pep o) t); try reflexivity;
+        cbn [flat_map opt_list app]; rewrite <- ?app_assoc; reflexivity. }
+  unfold py_filter. cbv zeta. rewrite OUTER. reflexivity.
 Qed.
